@@ -21,10 +21,20 @@ def _k(x):
 
 
 class Refs:
-    def __init__(self, ex):
+    def __init__(self, ex, concretize=None):
         self.ex = ex
         self.memo = {}
         self.keep = []
+        # forking mode: decide the constructor of an input node before looking at it, so that the
+        # reference follows one shape per path instead of expanding every alternative
+        self.concretize = concretize
+
+    def views(self, t):
+        if self.concretize is not None:
+            from .inputs import InputTerm
+            if isinstance(t, InputTerm):
+                self.concretize(self.ex, t)
+        return T.views(self.ex, t)
 
     def _memo(self, key, t, extra=()):
         self.keep.append((t, extra))
@@ -41,7 +51,7 @@ class Refs:
         alts = []
         defs = []
         sr = T.source_range_of(t)
-        for g, ct, adt in T.views(ex, t):
+        for g, ct, adt in self.views(t):
             f = adt.fields
             if ct == "Variable":
                 idx = f[1]
@@ -84,7 +94,7 @@ class Refs:
             return hit
         ex = self.ex
         parts = []
-        for g, ct, adt in T.views(ex, t):
+        for g, ct, adt in self.views(t):
             f = adt.fields
             if ct == "Variable":
                 m = z_and(f[1] >= c, z_eq(f[1] - c, k))
@@ -118,7 +128,7 @@ class Refs:
             return hit
         ex = self.ex
         out = []
-        for g, ct, adt in T.views(ex, t):
+        for g, ct, adt in self.views(t):
             f = adt.fields
             if ct == "Variable":
                 out.append((z_and(g, f[1] >= c), f[1] - c))
@@ -155,7 +165,7 @@ class Refs:
         ex = self.ex
         alts = []
         sr = T.source_range_of(t)
-        for g, ct, adt in T.views(ex, t):
+        for g, ct, adt in self.views(t):
             f = adt.fields
             if ct == "Variable":
                 idx = f[1]
@@ -178,4 +188,146 @@ class Refs:
         res = merge(alts)
         self.memo[key] = res
         self.keep.append((t, x, u, s))
+        return res
+
+
+# ---------------------------------------------------------------------------------------------
+# call-by-value small-step reference (C02)
+VALUE_CTORS = ("Type", "Lambda", "Pi", "Integer", "IntegerLiteral", "Boolean", "True", "False")
+
+
+def _trunc_div(a, b):
+    from .methods import trunc_div
+    return trunc_div(a, b)
+
+
+class StepRef(Refs):
+    """One-step call-by-value reduction on hole-free terms.  `step(t)` returns (steps, t') where
+    `steps` is the condition under which t reduces and t' the reduct (meaningful under `steps`)."""
+
+    def is_value(self, t):
+        return z_or(*[g for g, ct, _ in self.views(t) if ct in VALUE_CTORS])
+
+    def lit_of(self, t):
+        """(is_literal formula, literal value expr or None)"""
+        alts = [(g, adt.fields[0].v) for g, ct, adt in self.views(t) if ct == "IntegerLiteral"]
+        if not alts:
+            return False, None
+        isl = z_or(*[g for g, _ in alts])
+        v = alts[-1][1]
+        for g, x in reversed(alts[:-1]):
+            v = z_ite(g, x, v)
+        return isl, v
+
+    def step(self, t):
+        key = ("step", id(t))
+        hit = self.memo.get(key)
+        if hit is not None:
+            return hit
+        ex = self.ex
+        outs = []   # (guard, reduct)
+        for g, ct, adt in self.views(t):
+            f = adt.fields
+            if ct in VALUE_CTORS or ct == "Variable":
+                continue
+            if ct == "Unifier":
+                raise InternalError("reference step is defined on hole-free terms")
+            if ct == "Application":
+                fn, arg = f
+                sf, fn2 = self.step(fn)
+                if fn2 is not None:
+                    outs.append((z_and(g, sf), T.mk(ct, [fn2, arg])))
+                if sf is True:
+                    continue
+                vf = self.is_value(fn)
+                if vf is False:
+                    continue
+                sa, arg2 = self.step(arg)
+                va = self.is_value(arg)
+                if arg2 is not None:
+                    outs.append((z_and(g, z_not(sf), vf, sa), T.mk(ct, [fn, arg2])))
+                for g2, c2, a2 in self.views(fn):
+                    if c2 == "Lambda":
+                        body = a2.fields[3]
+                        gb = z_and(g, g2, z_not(sa), va)
+                        if gb is not False:
+                            outs.append((gb, self.subst(body, 0, arg, 0)))
+            elif ct.startswith("Let"):
+                defs, body = f
+                n = len(defs)
+                if n == 0:
+                    outs.append((g, body))
+                    continue
+                x, ann, d = defs[0]
+                sd, d2 = self.step(d)
+                if d2 is not None:
+                    outs.append((z_and(g, sd), T.let([(x, ann, d2)] + [tuple(r) for r in defs[1:]], body)))
+                vd = self.is_value(d)
+                if z_and(g, z_not(sd), vd) is False:
+                    continue
+                idx = n - 1
+                me = T.var(x, 0)
+                _, ann_up = self.shift(ann, 0, 1)
+                _, d_up = self.shift(d, 0, 1)
+                wrapper = T.let([(x, self.subst(ann_up, idx + 1, me, 0), self.subst(d_up, idx + 1, me, 0))], me)
+                unfolded = self.subst(d, idx, wrapper, 0)
+                rest = [(xi, self.subst(ai, idx, unfolded, 0), self.subst(di, idx, unfolded, 0)) for (xi, ai, di) in defs[1:]]
+                outs.append((z_and(g, z_not(sd), vd), T.let(rest, self.subst(body, idx, unfolded, 0))))
+            elif ct == "Negation":
+                (e,) = f
+                se, e2 = self.step(e)
+                if e2 is not None:
+                    outs.append((z_and(g, se), T.mk(ct, [e2])))
+                isl, lv = self.lit_of(e)
+                if lv is not None:
+                    outs.append((z_and(g, isl), T.lit(-lv)))
+            elif ct == "If":
+                c, a, b = f
+                sc, c2 = self.step(c)
+                if c2 is not None:
+                    outs.append((z_and(g, sc), T.mk(ct, [c2, a, b])))
+                for g2, cc, _ in self.views(c):
+                    if cc == "True":
+                        outs.append((z_and(g, g2), a))
+                    elif cc == "False":
+                        outs.append((z_and(g, g2), b))
+            else:
+                l, r = f
+                sl, l2 = self.step(l)
+                if l2 is not None:
+                    outs.append((z_and(g, sl), T.mk(ct, [l2, r])))
+                if sl is True:
+                    continue
+                vl = self.is_value(l)
+                if vl is False:
+                    continue
+                sr_, r2 = self.step(r)
+                if r2 is not None:
+                    outs.append((z_and(g, z_not(sl), vl, sr_), T.mk(ct, [l, r2])))
+                il, lv = self.lit_of(l)
+                ir, rv = self.lit_of(r)
+                if lv is not None and rv is not None:
+                    both = z_and(g, il, ir)
+                    if ct == "Sum":
+                        outs.append((both, T.lit(lv + rv)))
+                    elif ct == "Difference":
+                        outs.append((both, T.lit(lv - rv)))
+                    elif ct == "Product":
+                        outs.append((both, T.lit(lv * rv)))
+                    elif ct == "Quotient":
+                        nz = z_not(z_eq(rv, 0))
+                        if nz is not False:
+                            outs.append((z_and(both, nz), T.lit(_trunc_div(lv, rv))))
+                    else:
+                        cond = {"LessThan": lv < rv, "LessThanOrEqualTo": lv <= rv, "EqualTo": z_eq(lv, rv),
+                                "GreaterThan": lv > rv, "GreaterThanOrEqualTo": lv >= rv}[ct]
+                        outs.append((z_and(both, cond), T.mk("True")))
+                        outs.append((z_and(both, z_not(cond)), T.mk("False")))
+        outs = [(g, r) for g, r in outs if g is not False]
+        if not outs:
+            res = (False, None)
+        else:
+            res = (z_or(*[g for g, _ in outs]), merge(outs))
+        self.memo[key] = res
+        self.keep.append(t)
         return res
